@@ -86,6 +86,10 @@ def run_net(spec):
 def gen_analytic(rnd):
     fam = rnd.choice(['er', 'er', 'er', 'plc'])
     o = rnd.choice([1, 2, 3]); c = rnd.choice([0.5, 3.0, 0.25])
+    if fam == 'er' and rnd.random() < 0.3:
+        # derivatives of high order (index + order up to 60), at mean degrees where the coefficients involved are not negligible
+        o = rnd.choice([11, 16, 21, 25, 30, 40])
+        return dict(kind='analytic', fam='er', kmean=rnd.choice([10.0, 15.0, 20.0]), idx=sorted(rnd.sample(range(0, 60 - o), 2)), order=o, c=c)
     if fam == 'er':
         return dict(kind='analytic', fam='er', kmean=rnd.choice([0.5, 1.0, 2.0, 5.0, 10.0, 20.0, round(rnd.uniform(0.1, 20), 3)]),
                     idx=sorted(rnd.sample(range(0, 58), 2)), order=o, c=c)
@@ -120,11 +124,14 @@ def run_analytic(spec):
                 npts = int(math.ceil((i + 1) / 99) * 100)
                 alias = c * fac * sum(p(i + o + j * npts) for j in range(1, 6))
                 got = h[i]
-                if abs(got - want) > 10 * abs(alias) + 1e-6 * abs(want) + 1e-9:
+                # (float noise of about 1e-16 on the Taylor coefficient itself is multiplied by (i+o)!/i! like everything else)
+                if abs(got - want) > 10 * abs(alias) + 1e-6 * abs(want) + 1e-9 + abs(c) * fac * 1e-12:
                     viol.append(f"{spec['fam']} {dict((k_, v) for k_, v in spec.items() if k_ in ('kmean', 'exponent', 'cutoff'))} {what}: "
                                 f"coefficient {i} = {got}, Taylor coefficient {mpmath.nstr(want, 12)}")
                     break
-            if spec['fam'] == 'er' and not viol:
+            # (values at 1 of derivatives of high order are dominated by cancellation in the 100-point contour sum: 7e-5 relative at order 40 on
+            #  the unchanged code; they are judged for the low orders only)
+            if spec['fam'] == 'er' and not viol and o <= 5:
                 want = c * mpmath.mpf(spec['kmean']) ** o
                 got = h(1.0)
                 if abs(got - want) > 1e-6 * abs(want) + 1e-9:
@@ -134,7 +141,12 @@ def run_analytic(spec):
     return [], [], dict(samples=len(spec['idx']) * 6, M=0), [('analytic', v) for v in viol[:1]]
 
 
-PROFILES = dict(net=(gen_net, run_net), analytic=(gen_analytic, run_analytic))
+def gen_analytic_hi(rnd):
+    o = rnd.choice([11, 16, 21, 25, 30, 40]); c = rnd.choice([0.5, 3.0, 0.25])
+    return dict(kind='analytic', fam='er', kmean=rnd.choice([10.0, 15.0, 20.0]), idx=sorted(rnd.sample(range(0, 60 - o), 2)), order=o, c=c)
+
+
+PROFILES = dict(net=(gen_net, run_net), analytic=(gen_analytic, run_analytic), analytic_hi=(gen_analytic_hi, run_analytic))
 
 
 def main():
